@@ -1,4 +1,4 @@
-* HttpEqualsPipe is model-checked on the quick, Limit-0 and Limit-2 alphabets (MC.cfg, MC_l0.cfg, MC_l2.cfg); on the full
+\* HttpEqualsPipe is model-checked on the quick, Limit-0 and Limit-2 alphabets (MC.cfg, MC_l0.cfg, MC_l2.cfg); on the full
 \* alphabet the faithful model contains the known deviation of the code (finding C11 dynx-cast, see MC_full_asis.cfg),
 \* so here only the other properties are checked; the pipe comparison of the full alphabet is made by replay (GenE_full).
 SPECIFICATION Spec
